@@ -23,7 +23,7 @@ def program_slices(tier):
     sl.append(("E1", sc(["enum"], reprs, [[], ["rename_all"]], [], vsh, [[], ["untagged"], ["skip"], ["rename"]],
                         ["i32", "inner", "opt_i32"] if q else ["i32", "inner", "opt_i32", "string", "unit", "u64"], [[], ["skip"]])))
     sl.append(("E2", sc(["enum"], reprs, [[]], [], ["newtype", "struct1"], [[], ["untagged"]],
-                        ["unit", "datae", "tage", "unite", "vec_inner", "map", "tup", "gen_i32", "box_inner", "optopt", "map_i", "arr2", "deep", "vec_deep", "tree", "opt_tree"],
+                        ["unit", "datae", "tage", "unite", "vec_inner", "map", "tup", "gen_i32", "box_inner", "optopt", "map_i", "arr2", "arr_nested", "deep", "vec_deep", "tree", "opt_tree"],
                         [[], ["inline"]])))
     sl.append(("E3", sc(["enum"], ["ext", "int"] if q else reprs,
                         [["rename_all"], ["rename_all_kebab"], ["rename_all_fields"], ["rename_all", "rename_all_fields"], ["rename_all_upper"]],
@@ -36,7 +36,7 @@ def program_slices(tier):
                         [[], ["skip"], ["flatten"], ["inline"], ["optional"], ["optional_nullable"], ["optional_ssi"], ["rename"], ["default"]],
                         tys2=("string", "opt_i32") if not q else ("string",))))
     sl.append(("S2", sc(["struct"], [], [[], ["rename"]], ["tuple", "newtype", "unit", "named0", "tuple0"], [], [],
-                        ["i32", "string", "opt_i32", "inner", "vec_i32", "datae", "gen_i32", "tup", "unit", "map"], [[], ["skip"], ["inline"]])))
+                        ["i32", "string", "opt_i32", "inner", "vec_i32", "datae", "gen_i32", "tup", "unit", "map", "arr_nested"], [[], ["skip"], ["inline"]])))
     # pairs of attributes on one item (the single attributes are exhausted above)
     import itertools
     fpairs = [list(x) for x in itertools.combinations(["inline", "flatten", "optional", "optional_nullable", "optional_ssi", "rename", "default", "skip"], 2)]
